@@ -10,6 +10,7 @@ mod search;
 mod slice;
 mod lang;
 mod rgen;
+mod laws;
 
 use serde_json::Value;
 use std::fs::{File, OpenOptions};
@@ -27,6 +28,7 @@ fn runner(engine: &str) -> Runner {
         "search" => search::run_case,
         "slice" => slice::run_case,
         "lang" => lang::run_case,
+        "laws" => laws::run_case,
         _ => die(&format!("unknown engine {}", engine)),
     }
 }
@@ -76,6 +78,7 @@ fn main() {
                 "lang-text" => rgen::gen_texts(seed, n, maxlen),
                 "eval" => rgen::gen_eval(seed, n, maxlen),
                 "calls" => rgen::gen_calls(seed, n),
+                "strings" => rgen::gen_strings(seed, n, maxlen),
                 _ => die("unknown generator"),
             };
             for r in recs {
